@@ -93,6 +93,60 @@ pub fn oracle_consist(st: &ConsistStep, post: &Consist) -> (Vec<String>, Vec<Str
     (f, vec![])
 }
 
+/// two consecutive component calls: an accepted one, then one at / just below / above the rating
+/// (a check that looks at stale state from the previous call is exposed by the second call)
+fn sequence_cases(r: &mut Rng, n: usize, sink: &mut Sink) {
+    for k in 0..n {
+        let dt = r.lrange(0.1, 10.0);
+        let pmax = r.lrange(2e5, 8e6);
+        if k % 2 == 0 {
+            let mut g = rand_gen(r, pmax);
+            let aux = if r.chance(0.3) { 0.0 } else { r.lrange(1e3, 5e4) };
+            let _ = g.set_pwr_in_req(uc::W * (pmax - aux) * r.range(0.0, 0.99), uc::W * aux, uc::S * dt);
+            let (mode, prop) = match r.below(4) { 0 => ("at_rating", pmax - aux), 1 => ("above_rating", (pmax - aux) * r.range(1.001, 1.5) + 1.0), 2 => ("just_above", (pmax - aux) * (1.0 + 1e-9) + 1e-3), _ => ("below", (pmax - aux) * r.range(0.5, 0.999)) };
+            let pre = g.clone();
+            let res = catch(std::panic::AssertUnwindSafe(|| g.set_pwr_in_req(uc::W * prop, uc::W * aux, uc::S * dt)));
+            let mut fails = vec![];
+            let outcome = match res {
+                Ok(Ok(())) => {
+                    let out = g.state.pwr_elec_prop_out.value + g.state.pwr_elec_aux.value;
+                    if out > pmax * (1.0 + 1e-12) { fails.push(format!("generator output {} above rating {} accepted", out, pmax)); }
+                    Outcome::Ok(outs_gen(&g))
+                }
+                Ok(Err(e)) => { let (c, m) = err_code(&e); Outcome::Err(c, m) }
+                Err(pm) => Outcome::Panic(pm),
+            };
+            sink.put(Case { id: format!("gen_seq/{}", k), kind: "gen_seq".into(),
+                coq: format!("x_gen_req {} {} {} {}", coq_gen(&pre), cf(prop), cf(aux), cf(dt)),
+                outcome, tags: vec![format!("mode:{}", mode)],
+                input: json!({"gen_yaml": serde_yaml::to_string(&pre).unwrap_or_default(), "prop": fjson(prop), "aux": fjson(aux), "dt": fjson(dt)}),
+                oracle_fail: fails, known: vec![], in_domain: true });
+        } else {
+            let mut e = rand_edrv(r, pmax);
+            e.state.pwr_mech_regen_max = uc::W * if r.chance(0.4) { 0.0 } else { pmax * r.range(0.05, 1.0) };
+            let _ = e.set_pwr_in_req(uc::W * pmax * r.range(-0.9, 0.99), uc::S * dt);
+            let (mode, req) = match r.below(4) { 0 => ("at_rating", pmax), 1 => ("above_rating", pmax * r.range(1.001, 1.5) + 1.0), 2 => ("just_above", pmax * (1.0 + 1e-9) + 1e-3), _ => ("below", pmax * r.range(-1.0, 0.999)) };
+            let pre = e.clone();
+            let res = catch(std::panic::AssertUnwindSafe(|| e.set_pwr_in_req(uc::W * req, uc::S * dt)));
+            let mut fails = vec![];
+            let outcome = match res {
+                Ok(Ok(())) => {
+                    if e.state.pwr_mech_prop_out.value > pmax * (1.0 + 1e-12) { fails.push(format!("drivetrain output {} above rating {} accepted", e.state.pwr_mech_prop_out.value, pmax)); }
+                    if -e.state.pwr_mech_prop_out.value > pre.state.pwr_mech_regen_max.value * (1.0 + 1e-12) + 1e-9 { fails.push(format!("regeneration {} above the published regeneration limit {}", -e.state.pwr_mech_prop_out.value, pre.state.pwr_mech_regen_max.value)); }
+                    Outcome::Ok(outs_edrv(&e))
+                }
+                Ok(Err(er)) => { let (c, m) = err_code(&er); Outcome::Err(c, m) }
+                Err(pm) => Outcome::Panic(pm),
+            };
+            sink.put(Case { id: format!("edrv_seq/{}", k), kind: "edrv_seq".into(),
+                coq: format!("x_edrv_req {} {} {}", coq_edrv(&pre), cf(req), cf(dt)),
+                outcome, tags: vec![format!("mode:{}", mode)],
+                input: json!({"edrv_yaml": serde_yaml::to_string(&pre).unwrap_or_default(), "req": fjson(req), "dt": fjson(dt)}),
+                oracle_fail: fails, known: vec![], in_domain: true });
+        }
+    }
+}
+
 /// direct calls of the limit-publishing functions
 fn limit_cases(r: &mut Rng, n: usize, sink: &mut Sink) {
     for k in 0..n {
@@ -157,7 +211,8 @@ fn limit_cases(r: &mut Rng, n: usize, sink: &mut Sink) {
 
 pub fn run(seed: u64, n: usize, sink: &mut Sink) {
     let mut r = Rng::new(seed ^ 0xC09);
-    limit_cases(&mut r.fork(), n / 5, sink);
+    limit_cases(&mut r.fork(), n / 10, sink);
+    sequence_cases(&mut r.fork(), n / 5 - n / 10, sink);
     let n_loco = n * 2 / 5;
     let mut made = 0usize; let mut t = 0usize;
     while made < n_loco {
